@@ -92,6 +92,8 @@ func Run(r *ev.Run, replay string) {
 		r.Cap(fmt.Sprintf("workers explored %d of %d scenarios", done, total))
 	}
 	aggregateExecs(r)
+	r.MirrorCounters("choice_points", "states", "transitions")
+	r.MirrorCounters("executions", "traces_validated_against_impl")
 }
 
 func runTraced(sc scenario, vec []int) (*trace, *vs.Sched) {
